@@ -103,7 +103,22 @@ func frontValidXML(q frontReq, r *RNG) string {
 			root = E("DAV:", "propfind", E("DAV:", "prop", E("DAV:", "getetag"), E("DAV:", "displayname"), E("urn:x", "unknown")))
 		}
 	case "PROPPATCH":
-		root = E("DAV:", "propertyupdate", E("DAV:", "set", E("DAV:", "prop", E("DAV:", "displayname").T("n"))))
+		// the shapes a property update may take: set and/or remove, one, several or no property in an instruction,
+		// properties of foreign namespaces
+		switch r.Intn(7) {
+		case 0:
+			root = E("DAV:", "propertyupdate", E("DAV:", "set", E("DAV:", "prop")))
+		case 1:
+			root = E("DAV:", "propertyupdate", E("DAV:", "remove", E("DAV:", "prop")))
+		case 2:
+			root = E("DAV:", "propertyupdate", E("DAV:", "remove", E("DAV:", "prop", E("DAV:", "displayname"))), E("DAV:", "set", E("DAV:", "prop", E("urn:schemas-microsoft-com:", "Win32LastModifiedTime").T("x"), E("DAV:", "displayname").T("n"))))
+		case 3:
+			root = E("DAV:", "propertyupdate", E("DAV:", "set", E("DAV:", "prop", E("urn:x", "color").T("red"))))
+		case 4:
+			root = E("DAV:", "propertyupdate")
+		default:
+			root = E("DAV:", "propertyupdate", E("DAV:", "set", E("DAV:", "prop", E("DAV:", "displayname").T("n"))))
+		}
 	case "MKCOL":
 		root = E("DAV:", "mkcol", E("DAV:", "set", E("DAV:", "prop", E("DAV:", "resourcetype", E("DAV:", "collection"), E(nsX, coll)), E("DAV:", "displayname").T("n"))))
 	case "REPORT":
